@@ -8,7 +8,7 @@ the whole buffer), read capacities, every epoll mask, every callback — must be
 
 Lines:
   `tcp reset srv=<b> tls=<b> et=<b> batch=<b> mwq=<n> cob=<b> chunk=<n>`
-  `tcp acc <L|K|S<len>.<pat>|C|Q> ...`      accepted commands in command-queue order
+  `tcp acc <L|K|S<len>.<pat>|Z<len>.<pat>|T<len>.<thr>.<seq>|C|C1|C2|C3|X|Q> ...`      accepted commands in command-queue order
   `tcp pw <len>.<pat> ...`                  what the peer writes (to rebuild the bytes behind a read result)
   `tcp seg <tok;tok;...>`                   one epoll_wait wake-up: `V:` events, then the I/O thread's calls in order
   `tcp end`
@@ -35,6 +35,7 @@ def mkTagged (thr seq len : Nat) : Bytes :=
 
 inductive Acc
   | listener | connect | send (len pat : Nat) | close | quit
+  | closeO (o : Nat)             -- a close command as a TimerService callback enqueues it: 1 connect timeout, 2 handshake timeout, 3 write stall
   | other                        -- a command for ANOTHER session of the same engine: no call on the traced session
   | tagged (len thr seq : Nat)   -- a payload that names its sender (unlocked concurrent senders)
   deriving Repr
@@ -63,6 +64,7 @@ def parseNat2 (s : String) : Option (Nat × Nat) :=
 
 def parseAcc (t : String) : Option Acc :=
   if t = "L" then some .listener else if t = "K" then some .connect else if t = "C" then some .close
+  else if t = "C1" then some (.closeO 1) else if t = "C2" then some (.closeO 2) else if t = "C3" then some (.closeO 3)
   else if t = "Q" then some .quit
   else if t = "X" then some .other
   else if t.startsWith "T" then
@@ -70,6 +72,7 @@ def parseAcc (t : String) : Option Acc :=
     | [a, b, c] => do let x ← a.toNat?; let y ← b.toNat?; let z ← c.toNat?; pure (.tagged x y z)
     | _ => none
   else if t.startsWith "S" then (parseNat2 (t.drop 1).toString).map fun (l, p) => .send l p
+  else if t.startsWith "Z" then (parseNat2 (t.drop 1).toString).map fun (l, p) => .send l p   -- accepted from inside the close callback
   else none
 
 /-- a token of a segment, already split at ':' -/
@@ -132,7 +135,7 @@ def outToks (cfg : Cfg) : Out → List Tok
   | .close w =>
     let n := match w with
       | .socket => "socket" | .tlsIo => "tlsIo" | .peerClosed => "peerClosed" | .backpressure => "backpressure"
-      | .connect => "connect" | .tlsHandshake => "tlsHandshake" | .app => "app" | .shutdown => "shutdown"
+      | .connect => "connect" | .tlsHandshake => "tlsHandshake" | .app => "app" | .shutdown => "shutdown" | .timeout => "timeout"
     let _ := cfg
     [["E", "D", "0"], ["Cx", n]]
 
@@ -188,7 +191,7 @@ def branchesOf (cfg : Cfg) (s : St) (i : In) (r : R) : List String :=
   let closes := r.2.filterMap fun o => match o with
     | .close .backpressure => some "close:backpressure" | .close .socket => some "close:socket" | .close .tlsIo => some "close:tlsIo"
     | .close .peerClosed => some "close:peerClosed" | .close .connect => some "close:connect" | .close .tlsHandshake => some "close:tlsHandshake"
-    | .close .app => some "close:app" | .close .shutdown => some "close:shutdown" | _ => none
+    | .close .app => some "close:app" | .close .shutdown => some "close:shutdown" | .close .timeout => some "close:timeout" | _ => none
   let nW := (r.2.filter fun o => match o with | .write _ _ => true | _ => false).length
   let base : List String := match i with
     | .cmdSend p a =>
@@ -202,7 +205,13 @@ def branchesOf (cfg : Cfg) (s : St) (i : In) (r : R) : List String :=
       else if s.wq.length + 1 > cfg.maxWriteQueue then
         (if cfg.closeOnBackpressure then ["send:queue-overflow-close"] else ["send:queue-overflow-drop-oldest"])
       else ["send:queued-behind-pending"]
-    | .cmdClose _ => if s.closed then ["close:on-closed-session"] else []
+    | .cmdClose _ o =>
+      let n := match o with | .app => "app" | .connectTimeout => "connect-timeout" | .handshakeTimeout => "handshake-timeout" | .writeStall => "write-stall"
+      if s.closed then ["close:on-closed-session"]
+      else if closeGuardSkips s o then [s!"closecmd:{n}:stale-dropped"] else [s!"closecmd:{n}:effective"]
+    | .shutdown residual =>
+      (if s.closed then ["shutdown:session-already-closed"] else ["shutdown:closes-open-session"]) ++
+      (if residual.isEmpty then [] else ["shutdown:residual-sends-dropped"])
     | .connectCheck c => match c with
       | .established => ["connect:immediate"] | .notYet => ["connect:pending"] | .failed => ["connect:failed-immediately"]
     | .event ev _ _ h _ _ =>
@@ -214,6 +223,8 @@ def branchesOf (cfg : Cfg) (s : St) (i : In) (r : R) : List String :=
       (if s.connectPending ∧ ¬ r.1.connectPending ∧ s.tls = .none then ["connect:completed-by-event"] else []) ++
       (if r.1.receivedRev.length > s.receivedRev.length then ["read:data"] else []) ++
       (if r.1.receivedRev.length > s.receivedRev.length + 1 then ["read:several-chunks-in-one-event"] else []) ++
+      (if r.1.receivedRev.length > s.receivedRev.length ∧ ¬ cfg.edge then ["read:data-level-triggered"] else []) ++
+      (if r.1.receivedRev.length > s.receivedRev.length + 1 ∧ ¬ cfg.edge ∧ s.tls = .open then ["read:tls-level-triggered-several-chunks-one-wakeup"] else []) ++
       (if nW > 0 then
         (if r.1.closed then ["drain:error"] else if r.1.wq.isEmpty then ["drain:emptied"]
          else if r.1.wq.length < s.wq.length then ["drain:some-buffers-then-stopped"] else ["drain:front-only"]) ++
@@ -267,7 +278,14 @@ def runCmd (d : DSt) (c : Acc) (ts : List Tok) : Except String (DSt × List Tok)
   | .close =>
     match d.sess with
     | none => .ok (d, ts)
-    | some s => runIn d s (.cmdClose .app) ts
+    | some s => runIn d s (.cmdClose .app .app) ts
+  | .closeO o =>
+    match d.sess with
+    | none => .ok (d, ts)
+    | some s =>
+      if o = 1 then runIn d s (.cmdClose .timeout .connectTimeout) ts
+      else if o = 2 then runIn d s (.cmdClose .tlsHandshake .handshakeTimeout) ts
+      else runIn d s (.cmdClose .timeout .writeStall) ts
 
 def runCmds (d : DSt) : Nat → List Tok → Except String (DSt × List Tok)
   | 0, ts => .ok (d, ts)
@@ -326,15 +344,23 @@ def runShutdown (d : DSt) (ts : List Tok) : Except String (DSt × List Tok) :=
   match runProcess d ts with
   | .error e => .error e
   | .ok (d1, ts1) =>
+    -- the residual swap (`S:k` after the closes): the k commands still queued are taken and dropped
+    let kRes := match ts1.find? (isK "S") with
+      | some [_, k] => k.toNat?.getD 0
+      | _ => 0
+    let residual : List Bytes := (d1.acc.take kRes).filterMap fun a => match a with
+      | .send len pat => some (mkPayload pat len)
+      | .tagged len thr seq => some (mkTagged thr seq len)
+      | _ => none
     let closed : Except String (DSt × List Tok) :=
       match d1.sess with
-      | some s => if s.closed then .ok (d1, ts1) else runIn d1 s (.cmdClose .shutdown) ts1
+      | some s => runIn d1 s (.shutdown residual) ts1
       | none => .ok (d1, ts1)
     match closed with
     | .error e => .error e
     | .ok (d2, ts2) =>
       match ts2 with
-      | ["S", _] :: rest => .ok ({ d2 with running := false }, rest)
+      | ["S", _] :: rest => .ok ({ d2 with running := false, acc := d2.acc.drop kRes }, rest)
       | t :: _ => .error s!"model=S(residual) trace={showTok t}"
       | [] => .error "model=S(residual) trace=<end of segment>"
 
@@ -348,7 +374,7 @@ def runSeg (d : DSt) (line : String) : Except String DSt :=
   let toks := parseToks line
   let (evs, rest) := splitEvents toks
   -- loopBatched: special fds (eventfd, timerfd) are handled while the batch is collected, the others afterwards
-  let evs := if d.batch then evs.filter (fun e => e.1 = "v" || e.1 = "t") ++ evs.filter (fun e => !(e.1 = "v" || e.1 = "t")) else evs
+  let evs := if d.batch then batchOrder (fun e => e.1 = "v" || e.1 = "t") evs else evs
   match runEvents d evs rest with
   | .error e => .error e
   | .ok (d1, ts1) =>
